@@ -314,6 +314,15 @@ func orcTrigger(s *orcStep, prop string) string {
 				if orcIsAncestor(pre, ns, nd) || orcIsAncestor(pre, nd, ns) {
 					return "reconnect-to-own-container-or-descendant"
 				}
+				if (c.Src != nil && ns == e.Src && *c.Src != pre.Objs[e.Src].AbsID) || (c.Dst != nil && nd == e.Dst && *c.Dst != pre.Objs[e.Dst].AbsID) {
+					// the "new" endpoint is the current one, spelled differently (letter case)
+					return "reconnect-to-current-endpoint-spelled-differently"
+				}
+				if len(k.Obj) > 0 {
+					// the connection is declared inside a container: new endpoints are rewritten as
+					// paths relative to that scope (pathFromScopeObj), the prediction uses absolute IDs
+					return "reconnect-of-connection-scoped-in-container"
+				}
 			}
 			for i, o := range pre.Edges {
 				if i == te {
@@ -369,6 +378,10 @@ func orcTrigger(s *orcStep, prop string) string {
 					return "connection-between-target-and-own-descendant"
 				}
 			}
+		}
+		if p := to.Parent; p >= 0 && pre.Objs[p].RefEdgeOnly && len(pre.children(p)) == 1 {
+			// the container exists only as the path prefix of the target inside connections
+			return "parent-exists-only-as-path-prefix-of-target"
 		}
 		switch {
 		case to.RefFlatAttr:
